@@ -1,8 +1,85 @@
+import MwVerif.Lemmas.Scan.Step
 import MwVerif.Model.ScanRules
 
+/-!
+# C10 — tokenisation is lossless: tokens tile the input
+
+Theorems over `Model/Scan.lean`, for **any** rule sets whose regular expressions are not
+nullable (plus two structural conditions on the rules carrying the `ebad` and `breakSplit`
+actions), and in particular for the transcribed rule sets of `_uscan.re` (`mwRules`).
+-/
 namespace MwVerif.Scan
 
-/-- placeholder while the theorems are written. -/
-theorem c10_rules_loaded : mwRules.bol.length = 10 ∧ mwRules.notBol.length = 30 := by decide
+/-- **C10 (tiling).**  After scanning, the tokens tile a prefix `[0, q)` of the source (text +
+sentinels): in order, each non-empty, each starting where the previous one ends except for
+gaps that consist of U+EBAD only. -/
+theorem c10_tiles (rules : Rules) (hr : rulesOkB rules = true) (text : List Char) :
+    ∃ q, q ≤ (text ++ List.replicate 32 (Char.ofNat 0)).length ∧
+      TilesFrom (text ++ List.replicate 32 (Char.ofNat 0)) 0 (scan rules text) q := by
+  unfold scan
+  simp only []
+  have h := scanLoop_inv (src := text ++ List.replicate 32 (Char.ofNat 0)) hr
+    ((text ++ List.replicate 32 (Char.ofNat 0)).length + 1) (init_inv _)
+  exact ⟨_, h.pos_le, h.tiles⟩
+
+/-- the tiling predicate, spelled out. -/
+theorem tiles_spec {src : List Char} {p q : Nat} {ts : List Tok} (h : TilesFrom src p ts q) :
+    (∀ t ∈ ts, 1 ≤ t.len ∧ p ≤ t.start ∧ t.start + t.len ≤ q) ∧
+    ts.Pairwise (fun a b => a.start + a.len ≤ b.start) ∧
+    (∀ i, p ≤ i → i < q → (∃ t ∈ ts, t.start ≤ i ∧ i < t.start + t.len) ∨ src[i]? = some ebadChar) := by
+  induction h with
+  | nil h1 h2 =>
+    refine ⟨by simp, by simp, ?_⟩
+    intro i hi1 hi2; exact Or.inr (h2 i hi1 hi2)
+  | @cons p q t ts h1 h2 h3 h4 ih =>
+    obtain ⟨a, b, c⟩ := ih
+    have hle := h4.le
+    refine ⟨?_, ?_, ?_⟩
+    · intro x hx
+      rcases List.mem_cons.1 hx with rfl | hx
+      · exact ⟨h3, h1, hle⟩
+      · obtain ⟨x1, x2, x3⟩ := a x hx
+        exact ⟨x1, by omega, x3⟩
+    · refine List.pairwise_cons.2 ⟨?_, b⟩
+      intro x hx; exact (a x hx).2.1
+    · intro i hi1 hi2
+      by_cases hlt : i < t.start
+      · exact Or.inr (h2 i hi1 hlt)
+      · by_cases hin : i < t.start + t.len
+        · exact Or.inl ⟨t, by simp, by omega, hin⟩
+        · rcases c i (by omega) hi2 with ⟨x, hx, hx2⟩ | hx
+          · exact Or.inl ⟨x, by simp [hx], hx2⟩
+          · exact Or.inr hx
+
+/-- the transcribed rule sets of `_uscan.re` satisfy the conditions (decided by the kernel). -/
+theorem c10_mw_rules_ok : rulesOkB mwRules = true := by decide
+
+/-- **C10 for the wikitext scanner**: ordered, non-empty, non-overlapping tokens starting at
+offset 0; every character before the stopping position that no token covers is U+EBAD. -/
+theorem c10_tiles_mw (text : List Char) :
+    ∃ q, q ≤ text.length + 32 ∧
+      (∀ t ∈ scan mwRules text, 1 ≤ t.len ∧ t.start + t.len ≤ q) ∧
+      (scan mwRules text).Pairwise (fun a b => a.start + a.len ≤ b.start) ∧
+      (∀ i, i < q → (∃ t ∈ scan mwRules text, t.start ≤ i ∧ i < t.start + t.len) ∨
+        (text ++ List.replicate 32 (Char.ofNat 0))[i]? = some ebadChar) := by
+  obtain ⟨q, hq, ht⟩ := c10_tiles mwRules c10_mw_rules_ok text
+  obtain ⟨a, b, c⟩ := tiles_spec ht
+  refine ⟨q, by simpa using hq, ?_, b, ?_⟩
+  · intro t ht'; exact ⟨(a t ht').1, (a t ht').2.2⟩
+  · intro i hi; exact c i (Nat.zero_le _) hi
+
+/-- text merging never extends a token over a gap: a merged text token still ends where the
+next one starts (this is `found_tiles` for the merge branch, restated). -/
+theorem c10_text_merge_sound {src : List Char} (s : St) (q len : Nat) (hl : 1 ≤ len)
+    (ht : TilesFrom src 0 s.toks q) (he : s.lastEbad = false → ∀ e, endOf s.toks = some e → e = q) :
+    TilesFrom src 0 (found s t_text q len).toks (q + len) :=
+  (found_tiles s t_text q len hl ht he).1
+
+/-! ### Non-vacuity (evaluated by the kernel on the real rule sets) -/
+
+example : scan mwRules "a b".toList = [⟨t_text, 0, 3⟩] := by decide +kernel
+example : scan mwRules [ebadChar, 'a', ebadChar, 'b', '\n', '\n', '\n', 'c'] =
+    [⟨t_text, 1, 1⟩, ⟨t_text, 3, 1⟩, ⟨t_newline, 4, 1⟩, ⟨t_break, 5, 2⟩, ⟨t_text, 7, 1⟩] := by
+  decide +kernel
 
 end MwVerif.Scan
